@@ -6,7 +6,9 @@ import (
 	"bufio"
 	"bytes"
 	"encoding/json"
+	"fmt"
 	"math/rand"
+	"os"
 	"runtime"
 	"sort"
 	"strconv"
@@ -105,6 +107,37 @@ type controller struct {
 	started time.Time
 	bits    string
 	ndec    int
+	lastPt  map[string]string // goroutine -> the point it was last released from
+	lexSide map[string]bool   // goroutine runs a lexer (it passed L.start)
+	waitTil time.Time         // a grant is deferred until the preferred side shows up (or this deadline)
+}
+
+// blockedAfter lists the points after which a goroutine waits for its peer
+// (or is gone); after any other point it is still running and reaches
+// another point on its own.
+var blockedAfter = map[string]bool{
+	"L.wait": true, "L.emit": true, "L.exit": true, "H.wait": true,
+	"P.req": true, "P.tok": true, "P.parsed": true, "P.joined": true, "P.set": true,
+}
+
+// runningSide reports whether a goroutine of the given side was released
+// from a point after which it keeps running, and is not parked now.
+func (c *controller) runningSide(lexer bool) bool {
+	for name, pt := range c.lastPt {
+		if c.lexSide[name] != lexer || blockedAfter[pt] {
+			continue
+		}
+		parked := false
+		for _, p := range c.parked {
+			if p.name == name {
+				parked = true
+			}
+		}
+		if !parked {
+			return true
+		}
+	}
+	return false
 }
 
 func (c *controller) hook(id int, pt string, n int) {
@@ -169,7 +202,8 @@ func (c *controller) pick() *parkedG {
 		}
 	} else {
 		isLexer := func(p *parkedG) bool {
-			return len(p.ev.Pt) > 0 && (p.ev.Pt[0] == 'L' || p.ev.Pt[0] == 'H' && p.ev.Pt != "H.push" && p.ev.Pt != "H.pushed")
+			// a goroutine that passed L.start runs a lexer (its E.* and H.* points included)
+			return c.lexSide[p.name] || p.ev.Pt == "L.start"
 		}
 		pol := c.policy
 		if pol == "bits" {
@@ -199,12 +233,34 @@ func (c *controller) pick() *parkedG {
 			if pol == "random" {
 				idx = c.rnd.Intn(len(c.parked))
 			} else {
+				// the preferred side has nobody parked: if one of its goroutines is still running it
+				// will arrive shortly -- an extreme schedule waits for it (bounded)
+				if os.Getenv("VERIF_SCHED_DEBUG") != "" {
+					fmt.Fprintf(os.Stderr, "pick: pol=%s parked=%d running=%v last=%v lex=%v\n", pol, len(c.parked), c.runningSide(pol == "lexer"), c.lastPt, c.lexSide)
+				}
+				if (pol == "lexer" || pol == "parser") && c.runningSide(pol == "lexer") {
+					now := time.Now()
+					if c.waitTil.IsZero() {
+						c.waitTil = now.Add(3 * time.Millisecond)
+					}
+					if now.Before(c.waitTil) {
+						if c.policy == "bits" && len(c.parked) >= 2 {
+							c.ndec-- // not a decision yet
+						}
+						return nil
+					}
+				}
 				idx = 0
 			}
 		}
 	}
+	c.waitTil = time.Time{}
 	p := c.parked[idx]
 	c.parked = append(c.parked[:idx], c.parked[idx+1:]...)
+	c.lastPt[p.name] = p.ev.Pt
+	if p.ev.Pt == "L.start" {
+		c.lexSide[p.name] = true
+	}
 	return p
 }
 
@@ -267,10 +323,10 @@ func (c *controller) run(done <-chan struct{}) (hang bool, timeouts int) {
 				c.mu.Unlock()
 			}
 			done = nil
-		case <-time.After(2 * time.Millisecond):
+		case <-time.After(200 * time.Microsecond):
 			c.mu.Lock()
 			nparked = len(c.parked)
-			if nparked != 0 && len(c.sched) != 0 {
+			if nparked != 0 && len(c.sched) != 0 && time.Since(idle) > 2*time.Millisecond {
 				// the schedule cannot be followed any further: drop it
 				c.sched = nil
 			}
@@ -295,7 +351,7 @@ func (c *controller) run(done <-chan struct{}) (hang bool, timeouts int) {
 
 func runSched(c schedCase) (o schedObs) {
 	o = schedObs{ID: c.ID, Kind: c.Kind, Src: c.Src, Policy: c.Policy, Seed: c.Seed, Sk: []string{}, Comments: []string{}, Store: []string{}, Events: []schedEvent{}, Running: []int{}}
-	ctl := &controller{names: map[uint64]string{}, arrive: make(chan struct{}, 1), rnd: rand.New(rand.NewSource(c.Seed)), policy: c.Policy, sched: c.Schedule, retAt: -1, bits: c.Bits}
+	ctl := &controller{lastPt: map[string]string{}, lexSide: map[string]bool{}, names: map[uint64]string{}, arrive: make(chan struct{}, 1), rnd: rand.New(rand.NewSource(c.Seed)), policy: c.Policy, sched: c.Schedule, retAt: -1, bits: c.Bits}
 	ctl.free = c.Policy == "free" || c.Policy == "race"
 	ctl.race = c.Policy == "race"
 	parser.VerifReset()
